@@ -421,10 +421,10 @@ theorem friNew_no_panic (K : CoinOps C D V) (N total : Nat) :
           subst h
           exact ih _ _ _ _ he
 
-/-- the only panic of the auxiliary-segment phase of an AIR without Lagrange kernel column, given a commitment per
-    segment: the `expect` on the auxiliary random elements -/
+/-- the only panic of the auxiliary-segment phase (with or without Lagrange kernel column / GKR verifier), given a
+    commitment per segment: the `expect` on the auxiliary random elements -/
 theorem auxPhase_panic_site (K : CoinOps C D V) (A : AirInst C D V) (cm : Committed V D) (c1 : C) (r0 : D)
-    (rest : List D) (hl : A.lagrange = false)
+    (rest : List D)
     (h2 : A.multiSegment = true → rest ≠ []) (s : String)
     (h : auxPhase K A cm c1 r0 rest = .error (.panic s)) : s = "get_aux_rand_elements" := by
   unfold auxPhase at h
@@ -434,14 +434,19 @@ theorem auxPhase_panic_site (K : CoinOps C D V) (A : AirInst C D V) (cm : Commit
     have hm' : A.multiSegment = true := by simpa using hm
     split at h
     · exact absurd rfl (h2 hm')
-    · rw [hl] at h
-      simp only [Bool.false_eq_true, if_false] at h
-      split at h
-      · injection h with h; injection h with h; exact h.symm
-      · cases h
+    · split at h
+      · split at h
+        · cases h
+        · split at h
+          · cases h
+          · split at h
+            · injection h with h; injection h with h; exact h.symm
+            · cases h
+      · split at h
+        · injection h with h; injection h with h; exact h.symm
+        · cases h
 
 theorem challenges_panic_site (W : Verifier C D V) (ctx : Serde.Context) (cm : Committed V D)
-    (hl : (W.air ctx).lagrange = false)
     (h1 : cm.traceRoots ≠ []) (h2 : (W.air ctx).multiSegment = true → 2 ≤ cm.traceRoots.length) (s : String)
     (h : challenges W ctx cm = .error (.panic s)) : s = "get_aux_rand_elements" := by
   unfold challenges at h
@@ -453,7 +458,7 @@ theorem challenges_panic_site (W : Verifier C D V) (ctx : Serde.Context) (cm : C
     · rename_i e he
       injection h with h
       subst h
-      refine auxPhase_panic_site _ _ _ _ _ _ hl ?_ s he
+      refine auxPhase_panic_site _ _ _ _ _ _ ?_ s he
       intro hm
       have := h2 hm
       rw [hroots] at this
@@ -574,8 +579,7 @@ theorem core_no_panic (J : Inst) (d : Desc) (pubs : List Nat) (acc : Acceptable)
   have hn : ti.length = 2 ^ ti.length.log2 := pow2_eq hpl
   rcases verify_panic_cases _ _ _ _ s hv with hch | ⟨ch, hch, hloop⟩
   · -- the challenge phase
-    refine challenges_panic_site (mkVerifier J E d pubs acc) p.context (committedOf J c) ?_ ?_ ?_ s hch
-    · simp only [mkVerifier, airInst]
+    refine challenges_panic_site (mkVerifier J E d pubs acc) p.context (committedOf J c) ?_ ?_ s hch
     · intro hnil
       have : (committedOf J c).traceRoots.length = 0 := by rw [hnil]; rfl
       simp only [committedOf, List.length_map] at this
@@ -605,7 +609,7 @@ theorem core_no_panic (J : Inst) (d : Desc) (pubs : List Nat) (acc : Acceptable)
     rw [hnp2, hlde] at hloop
     -- the number of layers is the scheduled one
     have hL : Fri.numFriLayers (friOpts o) (2 ^ (ti.length * o.blowup).log2)
-        = (chanCfg J p.context ncols).numFriLayers := by
+        = (chanCfg J d p.context ncols).numFriLayers := by
       unfold Fri.numFriLayers
       rw [numLayersLoop_eq_friLayers, ← hlde]
       simp only [chanCfg, hti, ho]
@@ -636,7 +640,7 @@ theorem core_no_panic (J : Inst) (d : Desc) (pubs : List Nat) (acc : Acceptable)
       rw [← hlde]; exact this
     · -- every fold leaves a non-empty domain
       rw [hL]
-      generalize hLL : (chanCfg J p.context ncols).numFriLayers = L at hdom ⊢
+      generalize hLL : (chanCfg J d p.context ncols).numFriLayers = L at hdom ⊢
       rcases Nat.eq_zero_or_pos L with h0 | hpos'
       · subst h0; simp
       · have := hdom (L - 1) (by omega)
@@ -709,6 +713,35 @@ theorem descAux8_cols (J : Inst) : ∀ ti o n, airNew (frontAir J descAux8) ti o
 
 -- the theorem applies to a description with an auxiliary segment
 example : RefVerifyTotal Inst.rp64 descAux8 := refVerifyTotal _ instOk_rp64 descAux8 (descAux8_cols _)
+
+/-- `descAux8` with a Lagrange kernel column appended to the auxiliary segment
+    (`w=2;l=8;e=1;j=0;p=;g=S?:+c0k7,R;t=1:-n0+c0k7;a=s0.0;x=2.1.1;h=Ak1:*a0+c0r0;u=2:-b0*a0+c0r0;b=s0.0=k1`, a base
+    configuration of both harnesses) -/
+def descLag8 : Desc :=
+  { descAux8 with aux := some {
+      width := 2, numRands := 1, cons := [.sub (.anxt 0) (.mul (.acur 0) (.add (.cur 0) (.rand 0)))],
+      degs := [⟨2, []⟩], asserts := [(⟨.single, 0, 0, 0⟩, .const 1)], lagrange := true } }
+
+theorem descLag8_cols (J : Inst) : ∀ ti o n, airNew (frontAir J descLag8) ti o = some n → n ≤ 255 := by
+  intro ti o n h
+  unfold airNew at h
+  simp only [] at h
+  repeat' (split at h <;> try (cases h; done))
+  all_goals (
+    simp only [Option.some.injEq] at h
+    subst h
+    simp [frontAir, descLag8, descAux8, Desc.auxDegs, Desc.auxWidth, Protocol.compositionColumns, Protocol.highestDegree,
+      Protocol.Degree.evalDegree]
+    try (
+      have hm : max (ti.length - 1) (2 * (ti.length - 1)) = 2 * (ti.length - 1) := Nat.max_eq_right (by omega)
+      rw [hm]
+      have : (2 * (ti.length - 1) - (ti.length - 1)) / ti.length ≤ 1 :=
+        Nat.div_le_of_le_mul (by omega)
+      omega))
+
+-- the theorem applies to a description with a Lagrange kernel column (GKR path of `verify`)
+example : RefVerifyTotal Inst.rp64 descLag8 := refVerifyTotal _ instOk_rp64 descLag8 (descLag8_cols _)
+example : RefVerifyTotal Inst.rp62 descLag8 := refVerifyTotal _ instOk_rp62 descLag8 (descLag8_cols _)
 
 end total
 
